@@ -614,3 +614,94 @@ class FastValidateLink(Contract):
         sha = hashlib.sha256((src + csrc).encode()).hexdigest()
         cx = type("DataCx", (), dict(axioms=[], hints=[], notes=[], distinct_consts_axiom=lambda self: []))()
         return cx, obs, dict(sha=sha, paths=1, lines=(1, None))
+
+
+# ------------------------------------------------------------------------------------------------------------------
+# PrefixList (Python-only validation: no fast_validate descriptor): prefix uniqueness
+# ------------------------------------------------------------------------------------------------------------------
+class _PrefixList(Contract):
+    path = PATH
+    properties = ("C01",)
+    class_paths = (PATH, "traits/trait_type.py", "traits/base_trait_handler.py")
+    overloads = ("three-values",)
+    assumptions = ("A-PY", "bounded shape: a value list of three (symbolic, arbitrary) strings; z3 strings",
+                   "representation invariant from __init__: _values_as_set holds exactly the members of values",
+                   "BaseTraitHandler.error always raises TraitError (summary)")
+    undecided_probe = dict(harness="pyvalidators", family="prefix_list")
+
+    def configure(self, cx, I, ov):
+        self.vals = [z3.String("legal_value_%d" % i) for i in range(3)]
+        self.value = z3.String("value")
+        cx.contracts = dict(cx.contracts)
+        cx.contracts[("BaseTraitHandler", "error")] = ErrorSummary()
+
+    def self_ref(self, cx, st):
+        ref = VRef(cx.new_oid())
+        tup = VTuple([VStr(v) for v in self.vals])
+        st = st.put(ref.oid, HObj("obj", None, "PrefixList", {"values": tup, "_values_as_set": tup}))
+        return ref, st
+
+    def expected(self):
+        """(accepted, result): member -> itself; else the unique legal value it is a prefix of"""
+        v = self.value
+        member = z3.Or(*[v == x for x in self.vals])
+        pre = [z3.PrefixOf(v, x) for x in self.vals]
+        count = z3.Sum(*[z3.If(p, 1, 0) for p in pre])
+        unique = count == 1
+        completion = z3.If(pre[0], self.vals[0], z3.If(pre[1], self.vals[1], self.vals[2]))
+        return z3.Or(member, unique), z3.If(member, v, completion)
+
+
+@register
+class PrefixListComplete(_PrefixList):
+    """PrefixList._complete_value: a member is returned as it is; otherwise the UNIQUE member of THIS trait's values that the
+    value is a prefix of; otherwise (no member, or several) ValueError.  Nothing but this trait's own values decides."""
+    qualname = "PrefixList._complete_value"
+
+    def setup(self, cx, I, ov):
+        ref, st = self.self_ref(cx, St())
+        return st, [ref, VStr(self.value)], {}, dict(witness={"value": self.value, "values": z3.Concat(self.vals[0], z3.StringVal("|"), self.vals[1], z3.StringVal("|"), self.vals[2])},
+                                                      concretise=lambda m: dict(harness="pyvalidators", family="prefix_list"))
+
+    def post(self, cx, I, ov, info, kind, payload, st):
+        acc, res = self.expected()
+        if kind == "raise":
+            return [("raise:only-ValueError-and-only-for-no-or-several-completions", z3.And(z3.BoolVal(payload.cname == "ValueError"), z3.Not(acc)))]
+        r = as_val(cx, payload, st)
+        return [("post:returns-only-when-a-member-or-a-unique-completion-exists", acc),
+                ("post:the-result-is-the-member-itself-or-the-unique-completion-among-THIS-trait's-values", r == cx.box_str(res))]
+
+    def covers(self, cx, ov, info):
+        return [("completes", lambda k, p, s: k == "return"), ("refuses", lambda k, p, s: k == "raise")]
+
+
+@register
+class PrefixListValidate(_PrefixList):
+    """PrefixList.validate: a str is completed (see _complete_value) or rejected with TraitError; anything else is rejected."""
+    qualname = "PrefixList.validate"
+    overloads = ("str-value", "other-value")
+    inline = ("PrefixList._complete_value",)
+
+    def setup(self, cx, I, ov):
+        ref, st = self.self_ref(cx, St())
+        obj = z3.Const("object", Val)
+        other = z3.Const("non_string_value", Val)
+        if ov == "other-value":
+            cx.module_globals["isinstance"] = VFunc("opaque", name="isinstance", apply=lambda I2, a, kw, s, k: k(VBool(z3.BoolVal(False)), s))
+        value = VStr(self.value) if ov == "str-value" else VElem(other)
+        return st, [ref, VElem(obj), VStr(z3.String("name")), value], {}, dict(witness={"value": self.value}, concretise=lambda m: dict(harness="pyvalidators", family="prefix_list"))
+
+    def post(self, cx, I, ov, info, kind, payload, st):
+        acc, res = self.expected()
+        if ov == "other-value":
+            return [("post:a-non-string-is-rejected-with-TraitError", z3.BoolVal(kind == "raise" and payload.cname == "TraitError"))]
+        if kind == "raise":
+            return [("raise:TraitError-exactly-for-no-or-several-completions", z3.And(z3.BoolVal(payload.cname == "TraitError"), z3.Not(acc)))]
+        r = as_val(cx, payload, st)
+        return [("post:accepted-only-when-a-member-or-a-unique-completion-exists", acc),
+                ("post:stores-the-member-itself-or-the-unique-completion-among-THIS-trait's-values", r == cx.box_str(res))]
+
+    def covers(self, cx, ov, info):
+        if ov == "other-value":
+            return [("rejects", lambda k, p, s: k == "raise")]
+        return [("accepts", lambda k, p, s: k == "return"), ("rejects", lambda k, p, s: k == "raise")]
